@@ -19,6 +19,7 @@ EXPLANATION = (
     "Hash/Eq agreement on values (+-0.0, NaN), comprehension semantics."
     " (R5) a comprehension generator's source expression is evaluated once per binding environment, unconditionally inside the loop over the environments."
     ' (R6) over (kinds equal, set contains element) the ∈ kernel is `kinds equal AND contains` and the ∉ kernel is its exact negation.'
+    ' (R7) each generator element is matched against its own scratch environment (declared inside the element loop), so bindings of a match that fails part-way cannot constrain the next element.'
 )
 
 ORACLE = {
